@@ -1,3 +1,70 @@
-(* C02 placeholder until the round-trip proof lands *)
-From Mdns Require Import Res WireOut C02Spec.
-Example C02_placeholder : True. Proof. exact I. Qed.
+(* C02  Every emitted packet parses back to exactly the records that were added.
+   Only statements here; proofs are `exact <lemma>` (Proofs/WireOutProofs.v, DecRefProofs.v).
+   to_packets   = model of DnsOutgoing::to_packets (Model/WireOut.v)
+   ref_parse    = independent RFC 1035 reference parser (Model/Rfc1035.v)
+   chk_C02      = the property statement as an executable checker (Model/C02Spec.v): every
+                  packet <= 8972 bytes; every packet is accepted by ref_parse (which requires
+                  the four header counts to be exactly the entries present and the packet to
+                  be used up exactly); id and flags (TC on all packets but the last); the
+                  questions are exactly the questions added (first packet); the records read
+                  back from all packets, per section and in order, are a sub-sequence of the
+                  records added - owner labels, type, class with cache-flush bit, TTL, RDATA
+                  with the names inside PTR/SRV RDATA as label lists. *)
+From Coq Require Import List NArith Bool.
+From Mdns Require Import Res Bytes Utf8 Rec Wire WireOut Rfc1035 C02Spec WireOutProofs DecRefProofs.
+Import ListNotations.
+Open Scope N_scope.
+
+(* Encoding a well-formed message never panics (no label assertion, no TTL underflow). *)
+Theorem C02_encode_total : forall m, wf_out m = true -> exists pkts, to_packets m = Ok pkts.
+Proof. exact encode_total. Qed.
+
+(* The round trip, for every well-formed message (any number of questions and records, any
+   sizes, several times the packet limit included) whose question section fits one packet. *)
+Theorem C02_encode_roundtrip : forall m pkts,
+  wf_out m = true -> fits m = true -> to_packets m = Ok pkts -> chk_C02 m pkts = true.
+Proof. exact encode_roundtrip. Qed.
+
+(* The crate's own decoder (model of DnsIncoming::new) reads the same content as the
+   reference parser from every datagram the reference parser accepts, as long as the content
+   is within the decoder's vocabulary (UTF-8 labels; PTR/CNAME/SRV/TXT/A/AAAA records):
+   dotted presentation of the same label lists, same types/classes/flush bits/RDATA, TTL 0 of
+   a response read as 1. Together with the theorem above: the decoder reads from the emitted
+   packets exactly (a sub-sequence of) what was added. *)
+Theorem C02_decoder_agrees_with_reference : forall d rm,
+  wf_bytes d -> ref_parse d = Some rm -> within_vocabulary rm ->
+  exists dm, decode d = Ok dm /\ decoder_agrees rm dm = true.
+Proof. exact decode_agrees_with_reference. Qed.
+
+(* A name written by the encoder at the end of a packet whose compression table is
+   consistent reads back, through the reference reader, as exactly its labels - whatever is
+   appended later. (The invariant that carries the round trip.) *)
+Theorem C02_write_labels_correct : forall t d ls,
+  tbl_ok t d -> forallb label_ok ls = true -> blen d + wire_len ls <= 16384 ->
+  exists bs t', write_labels t (blen d) ls = Ok (bs, t')
+    /\ 1 <= blen bs /\ blen bs <= wire_len ls /\ tbl_ok t' (d ++ bs)
+    /\ forall x, ref_name (d ++ bs ++ x) (blen d) = Some (ls, blen d + blen bs).
+Proof. exact write_labels_correct. Qed.
+
+(* Non-vacuity: a response with a question, PTR + SRV answers sharing suffixes (compression
+   pointers are emitted), an escaped dot in the instance label, and an address additional is
+   well-formed, fits, encodes, and passes the checker. *)
+Definition ex_name (s : list N) := s.
+Definition ex_ty : bytes := [95;120;46;95;116;99;112;46;108;111;99;97;108;46].            (* _x._tcp.local. *)
+Definition ex_inst : bytes := [97;92;46;98;46;95;120;46;95;116;99;112;46;108;111;99;97;108;46]. (* a\.b._x._tcp.local. *)
+Definition ex_host : bytes := [104;46;108;111;99;97;108;46].                              (* h.local. *)
+Definition ex_msg : outgoing :=
+  mkOut 33792 0 true [(ex_ty, 12)]
+    [ (mkORec (mkRR ex_ty 12 1 false 4500 (RPtr ex_inst)) None 1000, 0);
+      (mkORec (mkRR ex_inst 33 1 true 120 (RSrv 0 0 8080 ex_host)) None 1000, 0) ]
+    []
+    [ mkORec (mkRR ex_host 1 1 true 120 (RAddr [192;168;1;2])) None 1000 ].
+Example C02_example :
+  wf_out ex_msg = true /\ fits ex_msg = true /\
+  match to_packets ex_msg with Ok pkts => chk_C02 ex_msg pkts | _ => false end = true.
+Proof. repeat split; vm_compute; reflexivity. Qed.
+
+Print Assumptions C02_encode_total.
+Print Assumptions C02_encode_roundtrip.
+Print Assumptions C02_decoder_agrees_with_reference.
+Print Assumptions C02_write_labels_correct.
